@@ -128,6 +128,7 @@ func bytePoolCase(o *output, mc, req, wrote int, put, view string) {
 // bytePoolCycles: W goroutines share one pool; each cycle checks what it got
 // and that what it wrote stays its own while it holds the slice.
 func bytePoolCycles(o *output, stop *atomic.Bool, w int, shorten bool) {
+	maxCycles := ev.Pick(30_000, 1_000_000) // bounded: a background load, not a spinner
 	pool := byteslicepool.NewByteSlicePool(64)
 	tr := newTrace("bytepool", w, tv.M{"mode": "cycles", "put": map[bool]string{false: "full", true: "zero"}[shorten], "workers": w})
 	var wg sync.WaitGroup
@@ -139,7 +140,7 @@ func bytePoolCycles(o *output, stop *atomic.Bool, w int, shorten bool) {
 			own := byte(0x10 + g)
 			r := newRnd(uint64(g) + uint64(ev.Seed())<<8)
 			var cycles, viewed, foreign, selfBad, nonEmpty, reusedN int
-			for !stop.Load() || cycles < 200 {
+			for (!stop.Load() && cycles < maxCycles) || cycles < 200 {
 				cycles++
 				b := pool.Get(64 + g)
 				if len(b) != 0 {
@@ -308,6 +309,7 @@ func cryptoAnswer(c cryptoCase, salt byte) string {
 }
 
 func calcWorkers(o *output, stop *atomic.Bool, w int) {
+	maxCalls := ev.Pick(1500, 100_000)
 	// answers of every call made alone, before anything runs concurrently
 	cronBase := map[string]string{}
 	for _, s := range cronSpecs {
@@ -329,7 +331,7 @@ func calcWorkers(o *output, stop *atomic.Bool, w int) {
 			r := newRnd(uint64(g)*977 + uint64(ev.Seed()))
 			var calls int
 			cronBad, cryptoBad := "", ""
-			for !stop.Load() || calls < 300 {
+			for (!stop.Load() && calls < maxCalls) || calls < 300 {
 				calls++
 				s := cronSpecs[r.intn(len(cronSpecs))]
 				if got := cronAnswer(s); got != cronBase[s] && cronBad == "" {
@@ -364,8 +366,8 @@ func childFree(o *output) {
 	go func() { defer bg.Done(); calcWorkers(o, &stop, 4) }()
 	var fg sync.WaitGroup
 	fg.Add(2)
-	go func() { defer fg.Done(); registryRounds(o, ev.Pick(5000, 60000), 8) }()
-	go func() { defer fg.Done(); freePipelines(o, ev.Pick(250, 6000), 8, ev.Seed()*104729+5) }()
+	go func() { defer fg.Done(); registryRounds(o, ev.Pick(3000, 60000), 8) }()
+	go func() { defer fg.Done(); freePipelines(o, ev.Pick(160, 6000), 8, ev.Seed()*104729+5) }()
 	fg.Wait()
 	stop.Store(true)
 	bg.Wait()
